@@ -13,8 +13,11 @@
 import Gama.Lemmas.NeuLemmas
 import Gama.Lemmas.G3BookLemmas
 import Gama.Lemmas.AdjXmlLemmas
+import Gama.Lemmas.G3LinReal
+import Gama.Lemmas.G3LinZenith
+import Gama.Lemmas.G3ParserLemmas
 namespace Gama.Props.C19
-open Gama Gama.Neu Gama.G3Book Gama.AdjXml
+open Gama Gama.Neu Gama.G3Book Gama.AdjXml Gama.G3Lin Gama.Gen.G3Lin Gama.G3Parser
 open Matrix
 
 /-- the rotation `Point::transformation_matrix(b, l)` builds is orthogonal: `Rᵀ R = 1` -/
@@ -29,29 +32,78 @@ theorem C19_neu_det (b l : ℝ) : (frame b l).toMatrix.det = -1 := frame_det b l
 example : (frame 0 0).toMatrix = !![0, 0, 1; 0, 1, 0; 1, 0, 0] := by
   simp [frame_eq, Rot.toMatrix]
 
-/-- the three rows of a vector (XYZ difference) observation are `+R_to` and `−R_from` in the
-    n-e-u unknowns: applied to any `x` they give exactly the change of `to − from`
-    (the observation is linear in the unknowns, so this *is* its derivative) -/
-theorem C19_vector_row (frm tgt : Pt ℝ) (dx dy dz fdh tdh tol : ℝ) (x : ℕ → ℝ) :
-    (@linVector ℝ realScalar frm tgt dx dy dz fdh tdh tol).rows.map (fun r => @rowDot ℝ realScalar r x) =
-      [ (dispXYZ tgt x).1 - (dispXYZ frm x).1,
-        (dispXYZ tgt x).2.1 - (dispXYZ frm x).2.1,
-        (dispXYZ tgt x).2.2 - (dispXYZ frm x).2.2 ] :=
-  linVector_rows frm tgt dx dy dz fdh tdh tol x
+/-- the three rows of a vector (XYZ difference) observation, as generated from
+    `Model::linearization(Vector*)`, are `+R_to` and `−R_from` in the n-e-u unknowns: applied to any `x`
+    they give exactly the change of `to − from` (the observation is linear in the unknowns, so this *is*
+    its derivative with respect to the local n/e/u displacements) -/
+theorem C19_coeff_is_derivative_vector (P : Pts ℝ) (o : GObs ℝ) (tol : ℝ) (x : ℕ → ℝ) :
+    (evalLin P (@vector ℝ realTrig P o tol)).rows.map (fun r => @rowDot ℝ realScalar r x) =
+      [ (dispXYZ (toPt (P .to)) x).1 - (dispXYZ (toPt (P .frm)) x).1,
+        (dispXYZ (toPt (P .to)) x).2.1 - (dispXYZ (toPt (P .frm)) x).2.1,
+        (dispXYZ (toPt (P .to)) x).2.2 - (dispXYZ (toPt (P .frm)) x).2.2 ] := by
+  rw [gen_vector_eq]; exact linVector_rows _ _ _ _ _ _ _ _ x
 
 /-- same for observed coordinates (rows `+R`) -/
-theorem C19_xyz_row (p : Pt ℝ) (a b c tol : ℝ) (x : ℕ → ℝ) :
-    (@linXYZ ℝ realScalar p a b c tol).rows.map (fun r => @rowDot ℝ realScalar r x) =
-      [ (dispXYZ p x).1, (dispXYZ p x).2.1, (dispXYZ p x).2.2 ] :=
-  linXYZ_rows p a b c tol x
+theorem C19_coeff_is_derivative_xyz (P : Pts ℝ) (o : GObs ℝ) (tol : ℝ) (x : ℕ → ℝ) :
+    (evalLin P (@xyz ℝ realTrig P o tol)).rows.map (fun r => @rowDot ℝ realScalar r x) =
+      [ (dispXYZ (toPt (P .pt)) x).1, (dispXYZ (toPt (P .pt)) x).2.1, (dispXYZ (toPt (P .pt)) x).2.2 ] := by
+  rw [gen_xyz_eq]; exact linXYZ_rows _ _ _ _ _ x
 
-/-- the distance row is the gradient of the spatial distance in the n-e-u unknowns
+/-- the generated distance row is the gradient of the spatial distance in the n-e-u unknowns
     (directional derivative along every displacement `ξ`), for distinct end points -/
-theorem C19_distance_row (frm tgt : Pt ℝ) (obs fdh tdh tol : ℝ) (ξ : ℕ → ℝ)
-    (hne : (tgt.X - frm.X) ^ 2 + (tgt.Y - frm.Y) ^ 2 + (tgt.Z - frm.Z) ^ 2 ≠ 0) :
-    (@linDistance ℝ realScalar frm tgt obs fdh tdh tol).rows = [distRow frm tgt] ∧
-      HasDerivAt (distAlong frm tgt ξ) (@rowDot ℝ realScalar (distRow frm tgt) ξ) 0 :=
-  ⟨linDistance_rows frm tgt obs fdh tdh tol hne, distRow_hasDerivAt frm tgt ξ hne⟩
+theorem C19_coeff_is_derivative_distance (P : Pts ℝ) (o : GObs ℝ) (tol : ℝ) (ξ : ℕ → ℝ)
+    (hne : ((P .to).X - (P .frm).X) ^ 2 + ((P .to).Y - (P .frm).Y) ^ 2 + ((P .to).Z - (P .frm).Z) ^ 2 ≠ 0) :
+    (evalLin P (@distance ℝ realTrig P o tol)).rows = [distRow (toPt (P .frm)) (toPt (P .to))] ∧
+      HasDerivAt (distAlong (toPt (P .frm)) (toPt (P .to)) ξ)
+        (@rowDot ℝ realScalar (distRow (toPt (P .frm)) (toPt (P .to))) ξ) 0 := by
+  rw [gen_distance_eq]
+  exact ⟨linDistance_rows _ _ _ _ _ _ hne, distRow_hasDerivAt _ _ ξ hne⟩
+
+/-- height and height difference: the rows applied to `x` are the change of the (difference of the)
+    heights when the points move by their `u` unknowns (heights are linear in `u`) -/
+theorem C19_coeff_is_derivative_height (P : Pts ℝ) (o : GObs ℝ) (tol : ℝ) (x : ℕ → ℝ) :
+    (evalLin P (@height ℝ realTrig P o tol)).rows.map (fun r => @rowDot ℝ realScalar r x) =
+      [dispU (toPt (P .pt)) x] ∧
+    (evalLin P (@hdiff ℝ realTrig P o tol)).rows.map (fun r => @rowDot ℝ realScalar r x) =
+      [dispU (toPt (P .to)) x - dispU (toPt (P .frm)) x] := by
+  rw [gen_height_eq, gen_hdiff_eq]
+  constructor
+  · simp only [linHeight, dispU, List.map_cons, List.map_nil]
+    cases (toPt (P .pt)).freeU <;> simp [rowDot]
+  · simp only [linHeightDiff, dispU, List.map_cons, List.map_nil]
+    cases (toPt (P .frm)).freeU <;> cases (toPt (P .to)).freeU <;> simp [rowDot] <;> ring
+
+/-- zenith angle, station part: the three coefficients the generated row pushes for the station are the
+    partial derivatives of the zenith angle `zen l = arccos(l₃/|l|)` of the line of sight `l` (expressed in
+    the station's n-e-u frame, `zLocal`) when the station moves along its own n, e, u axis, times
+    `Angular().scale()/Linear().scale()`; for every non-vertical sight.
+    Holds for the repaired formula `pd(-l1*l3*q, -l2*l3*q, r/s)` (notes/proposed/C19-zenith-horizontal-coef.diff);
+    on the unrepaired tree (`-l1*q, -l2*q`) this proof fails and the `lin` stream shows the wrong derivative.
+    `_partial` — full statement: for every displacement ξ of station and target (frames and the vertical held
+    fixed, `dB = dL = 0`, stored frame = `frame B L`) `HasDerivAt (t ↦ angPerLin · zenithFn (P moved by t·ξ))
+    (rowDot (evalRow P row) ξ) 0`.  Missing: (i) `zenithFn = zen (zLocal)` (needs the row-orthonormality of the
+    frame), (ii) the target's coefficients `R_toᵀ(−R_from·pd)` contract with the target's displacement to
+    `−pd · (R_fromᵀ D_to)` (linear algebra, no calculus).  Both are covered numerically by the derivative
+    oracle of the `lin` stream for station and target. -/
+theorem C19_coeff_is_derivative_zenith_partial (P : Pts ℝ) (o : GObs ℝ) (tol : ℝ)
+    (h : (zLocal P o).e1 * (zLocal P o).e1 + (zLocal P o).e2 * (zLocal P o).e2 ≠ 0) :
+    ∃ cN cE cU tN tE tU,
+      (@zenith ℝ realTrig P o tol).rows =
+        [[⟨[(.frm, .freeH)], [⟨.frm, .N, cN⟩, ⟨.frm, .E, cE⟩]⟩, ⟨[(.frm, .freeU)], [⟨.frm, .U, cU⟩]⟩,
+          ⟨[(.to, .freeH)], [⟨.to, .N, tN⟩, ⟨.to, .E, tE⟩]⟩, ⟨[(.to, .freeU)], [⟨.to, .U, tU⟩]⟩]] ∧
+      HasDerivAt (fun t => angPerLin * zen ((zLocal P o).e1 - t) (zLocal P o).e2 (zLocal P o).e3) cN 0 ∧
+      HasDerivAt (fun t => angPerLin * zen (zLocal P o).e1 ((zLocal P o).e2 - t) (zLocal P o).e3) cE 0 ∧
+      HasDerivAt (fun t => angPerLin * zen (zLocal P o).e1 (zLocal P o).e2 ((zLocal P o).e3 - t)) cU 0 :=
+  zenith_station_derivs P o tol h
+
+/-- non-vacuity: station at the origin of the frame (0, 0), target 10 m along the north axis (Z) -/
+example :
+    let fr : GPt ℝ := ⟨0, 0, 0, 0, 0, 0, 0, 0, 0, 0, 0, 0, frame 0 0, .free, .free, .free, 1, 2, 3⟩
+    let tg : GPt ℝ := ⟨0, 0, 10, 0, 0, 10, 0, 0, 0, 0, 0, 0, frame 0 0, .free, .free, .free, 4, 5, 6⟩
+    let P : Pts ℝ := fun r => if r = .to then tg else fr
+    (zLocal P ⟨0, 0, 0, 0, 0, 0, 0⟩).e1 * (zLocal P ⟨0, 0, 0, 0, 0, 0, 0⟩).e1 +
+      (zLocal P ⟨0, 0, 0, 0, 0, 0, 0⟩).e2 * (zLocal P ⟨0, 0, 0, 0, 0, 0, 0⟩).e2 ≠ 0 := by
+  simp [zLocal, sightLocal, sight, raised, up, vsub, E3.inverse, frame_eq]
 
 /-- the vector covariance is used as given (an XYZ covariance, no rotation): the block handed to
     `Adj` is the cluster's packed covariance divided by the a priori variance -/
@@ -66,43 +118,119 @@ theorem C19_vector_cov_unrotated (sd : ℝ) (c : List ℝ) :
 /-- consistent vectors: one Gauss–Newton step is exact.  If the observed vector is the
     difference of the points displaced by `ξ` metres in their own frames, then `x = 1000 ξ`
     satisfies every equation of the observation with zero residual. -/
-theorem C19_vector_one_step (frm tgt : Pt ℝ) (dx dy dz fdh tdh tol : ℝ) (ξ : ℕ → ℝ)
-    (hx : dx = (@Pt.Xdh ℝ realScalar tgt tdh + (dispXYZ tgt ξ).1) - (@Pt.Xdh ℝ realScalar frm fdh + (dispXYZ frm ξ).1))
-    (hy : dy = (@Pt.Ydh ℝ realScalar tgt tdh + (dispXYZ tgt ξ).2.1) - (@Pt.Ydh ℝ realScalar frm fdh + (dispXYZ frm ξ).2.1))
-    (hz : dz = (@Pt.Zdh ℝ realScalar tgt tdh + (dispXYZ tgt ξ).2.2) - (@Pt.Zdh ℝ realScalar frm fdh + (dispXYZ frm ξ).2.2)) :
-    (@linVector ℝ realScalar frm tgt dx dy dz fdh tdh tol).rhs =
-      (@linVector ℝ realScalar frm tgt dx dy dz fdh tdh tol).rows.map
-        (fun r => @rowDot ℝ realScalar r (fun i => 1000 * ξ i)) :=
-  linVector_one_step frm tgt dx dy dz fdh tdh tol ξ hx hy hz
+theorem C19_vector_one_step (P : Pts ℝ) (o : GObs ℝ) (tol : ℝ) (ξ : ℕ → ℝ)
+    (hx : o.v1 = (@GPt.Xdh ℝ realScalar (P .to) o.toDh + (dispXYZ (toPt (P .to)) ξ).1) -
+                 (@GPt.Xdh ℝ realScalar (P .frm) o.fromDh + (dispXYZ (toPt (P .frm)) ξ).1))
+    (hy : o.v2 = (@GPt.Ydh ℝ realScalar (P .to) o.toDh + (dispXYZ (toPt (P .to)) ξ).2.1) -
+                 (@GPt.Ydh ℝ realScalar (P .frm) o.fromDh + (dispXYZ (toPt (P .frm)) ξ).2.1))
+    (hz : o.v3 = (@GPt.Zdh ℝ realScalar (P .to) o.toDh + (dispXYZ (toPt (P .to)) ξ).2.2) -
+                 (@GPt.Zdh ℝ realScalar (P .frm) o.fromDh + (dispXYZ (toPt (P .frm)) ξ).2.2)) :
+    (evalLin P (@vector ℝ realTrig P o tol)).rhs =
+      (evalLin P (@vector ℝ realTrig P o tol)).rows.map (fun r => @rowDot ℝ realScalar r (fun i => 1000 * ξ i)) := by
+  rw [gen_vector_eq]
+  exact linVector_one_step _ _ _ _ _ _ _ _ ξ hx hy hz
 
-theorem C19_xyz_one_step (p : Pt ℝ) (a b c tol : ℝ) (ξ : ℕ → ℝ)
-    (hx : a = p.X + (dispXYZ p ξ).1) (hy : b = p.Y + (dispXYZ p ξ).2.1) (hz : c = p.Z + (dispXYZ p ξ).2.2) :
-    (@linXYZ ℝ realScalar p a b c tol).rhs =
-      (@linXYZ ℝ realScalar p a b c tol).rows.map (fun r => @rowDot ℝ realScalar r (fun i => 1000 * ξ i)) :=
-  linXYZ_one_step p a b c tol ξ hx hy hz
+theorem C19_xyz_one_step (P : Pts ℝ) (o : GObs ℝ) (tol : ℝ) (ξ : ℕ → ℝ)
+    (hx : o.v1 = (P .pt).X + (dispXYZ (toPt (P .pt)) ξ).1) (hy : o.v2 = (P .pt).Y + (dispXYZ (toPt (P .pt)) ξ).2.1)
+    (hz : o.v3 = (P .pt).Z + (dispXYZ (toPt (P .pt)) ξ).2.2) :
+    (evalLin P (@xyz ℝ realTrig P o tol)).rhs =
+      (evalLin P (@xyz ℝ realTrig P o tol)).rows.map (fun r => @rowDot ℝ realScalar r (fun i => 1000 * ξ i)) := by
+  rw [gen_xyz_eq]
+  exact linXYZ_one_step _ _ _ _ _ ξ hx hy hz
 
-/-- consistent observations at the generating coordinates: every right-hand side is 0
-    (vector, xyz, distance, height, height difference), so `x = 0` and the adjusted
-    coordinates are the generating ones.
-    `_partial`: angles, zenith angles and azimuths are not modelled in Lean; angles are covered by the
-    end-to-end oracle only (it found the sign defect of the left-target coefficients, fixed in 97d6802). -/
-theorem C19_consistent_fixed_point_partial (frm tgt : Pt ℝ) (fdh tdh tol : ℝ) :
-    (@linVector ℝ realScalar frm tgt
-        (@Pt.Xdh ℝ realScalar tgt tdh - @Pt.Xdh ℝ realScalar frm fdh)
-        (@Pt.Ydh ℝ realScalar tgt tdh - @Pt.Ydh ℝ realScalar frm fdh)
-        (@Pt.Zdh ℝ realScalar tgt tdh - @Pt.Zdh ℝ realScalar frm fdh) fdh tdh tol).rhs = [0, 0, 0] ∧
-    (@linXYZ ℝ realScalar tgt tgt.X tgt.Y tgt.Z tol).rhs = [0, 0, 0] ∧
-    (@linDistance ℝ realScalar frm tgt (dist3 frm tgt fdh tdh) fdh tdh tol).rhs = [0] ∧
-    (@linHeight ℝ realScalar tgt (@Pt.modelHeight ℝ realScalar tgt)).rhs = [0] ∧
-    (@linHeightDiff ℝ realScalar frm tgt
-        (@Pt.modelHeight ℝ realScalar tgt - @Pt.modelHeight ℝ realScalar frm)).rhs = [0] := by
-  refine ⟨by simp [linVector], by simp [linXYZ], ?_, by simp [linHeight], by simp [linHeightDiff]⟩
-  rw [linDistance_rhs]; simp
+/-- **which unknowns get a coefficient** (all eight observation types, generated guards): in every row a
+    coefficient is emitted for exactly the adjusted (free or constrained) unknowns among those the
+    observation depends on — `patFromTo` = n,e,u of `from` and `to`; heights: only `u`; azimuth: not the
+    `u` of its own station; angle: n,e,u of the three points — each once, in program order; nothing for a
+    fixed or unused component, nothing for any other point.  `Normal P`: N and E of a point are in the same
+    state, which `Model::update_parameters` establishes (the angle rows do not need it).
+    A `to->free_height()` block moved inside the `free_horizontal_position()` block breaks `shape_*`. -/
+theorem C19_only_free {K : Type} [Trig K] (P : Pts K) (h : Normal P) (o : GObs K) (tol : K) :
+    (∀ r ∈ (vector P o tol).rows, emitted P r = patFromTo.filter (adjusted P)) ∧
+    (∀ r ∈ (xyz P o tol).rows, emitted P r = patPoint.filter (adjusted P)) ∧
+    (∀ r ∈ (distance P o tol).rows, emitted P r = patFromTo.filter (adjusted P)) ∧
+    (∀ r ∈ (zenith P o tol).rows, emitted P r = patFromTo.filter (adjusted P)) ∧
+    (∀ r ∈ (azimuth P o tol).rows, emitted P r = patAzimuth.filter (adjusted P)) ∧
+    (∀ r ∈ (height P o tol).rows, emitted P r = patHeight.filter (adjusted P)) ∧
+    (∀ r ∈ (hdiff P o tol).rows, emitted P r = patHdiff.filter (adjusted P)) ∧
+    (∀ r ∈ (angle P o tol).rows, emitted P r = patAngle.filter (adjusted P)) :=
+  ⟨only_free_vector P h o tol, only_free_xyz P h o tol, only_free_distance P h o tol, only_free_zenith P h o tol,
+   only_free_azimuth P h o tol, only_free_height P h o tol, only_free_hdiff P h o tol, only_free_angle P o tol⟩
 
-example : (@linVector ℝ realScalar
-    ⟨0, 0, 0, frame 0 0, 0, 0, true, true, 1, 2, 3⟩ ⟨10, 0, 0, frame 0 0, 0, 0, true, true, 4, 5, 6⟩
-    10 0 0 0 0 1000).rhs = [0, 0, 0] := by
-  simp [linVector, Pt.Xdh, Pt.Ydh, Pt.Zdh, frame_eq]
+/-- … and the sparse row holds them under the column indices `Parameter::index()` of these unknowns -/
+theorem C19_only_free_indices {K : Type} (P : Pts K) (r : GRow K) :
+    (evalRow P r).map Prod.snd = (emitted P r).map fun q => (P q.1).index q.2 :=
+  evalRow_indices P r
+
+/-- non-vacuity: target with fixed n, e and free u, free station: the distance row has n, e, u of the
+    station and only u of the target -/
+example :
+    let fr : GPt ℚ := ⟨0, 0, 0, 0, 0, 0, 0, 0, 0, 0, 0, 0, ⟨0, 0, 1, 0, 1, 0, 1, 0, 0⟩, .free, .free, .free, 1, 2, 3⟩
+    let tg : GPt ℚ := ⟨3, 4, 0, 3, 4, 0, 0, 0, 0, 0, 0, 0, ⟨0, 0, 1, 0, 1, 0, 1, 0, 0⟩, .fixed, .fixed, .constr, 0, 0, 4⟩
+    let P : Pts ℚ := fun r => if r = .to then tg else fr
+    patFromTo.filter (adjusted P) = [(.frm, .N), (.frm, .E), (.frm, .U), (.to, .U)] := by
+  decide
+
+/-- consistent observations at the generating coordinates: every right-hand side is 0, for all eight
+    observation types (generated right-hand sides), so `x = 0` solves the equations and the adjusted
+    coordinates are the generating ones.  Observation functions (`Gama/Lemmas/G3LinReal.lean`):
+    vector = difference of the raised points, `distanceFn` = their distance, `zenithFn` = angle between the
+    station's vertical and the line of sight, `azimuthFn` = polar angle of the line of sight in the
+    station's n-e plane (observed in gon), `angleFn` = angle between the vertical planes through the left
+    and the right target, heights `H − geoid`. -/
+theorem C19_consistent_fixed_point (P : Pts ℝ) (o : GObs ℝ) (tol : ℝ) :
+    (o.v1 = @GPt.Xdh ℝ realScalar (P .to) o.toDh - @GPt.Xdh ℝ realScalar (P .frm) o.fromDh →
+     o.v2 = @GPt.Ydh ℝ realScalar (P .to) o.toDh - @GPt.Ydh ℝ realScalar (P .frm) o.fromDh →
+     o.v3 = @GPt.Zdh ℝ realScalar (P .to) o.toDh - @GPt.Zdh ℝ realScalar (P .frm) o.fromDh →
+       (@vector ℝ realTrig P o tol).rhs = [0, 0, 0]) ∧
+    (o.v1 = (P .pt).X → o.v2 = (P .pt).Y → o.v3 = (P .pt).Z → (@xyz ℝ realTrig P o tol).rhs = [0, 0, 0]) ∧
+    (o.v1 = distanceFn P o → (@distance ℝ realTrig P o tol).rhs = [0]) ∧
+    (o.v1 = @GPt.modelHeight ℝ realScalar (P .pt) → (@height ℝ realTrig P o tol).rhs = [0]) ∧
+    (o.v1 = @GPt.modelHeight ℝ realScalar (P .to) - @GPt.modelHeight ℝ realScalar (P .frm) →
+       (@hdiff ℝ realTrig P o tol).rhs = [0]) ∧
+    (o.v1 = zenithFn P o → (@zenith ℝ realTrig P o tol).rhs = [0]) ∧
+    (o.v1 = azimuthFn P o * 200 / Real.pi → (@azimuth ℝ realTrig P o tol).rhs = [0]) ∧
+    (o.v1 = angleFn P o → (@angle ℝ realTrig P o tol).rhs = [0]) := by
+  refine ⟨?_, ?_, ?_, ?_, ?_, ?_, ?_, ?_⟩
+  · intro h1 h2 h3
+    have := congrArg LinOut.rhs (gen_vector_eq P o tol)
+    rw [show (evalLin P (@vector ℝ realTrig P o tol)).rhs = (@vector ℝ realTrig P o tol).rhs from rfl] at this
+    rw [this, h1, h2, h3]
+    simp [linVector, toPt, GPt.Xdh, GPt.Ydh, GPt.Zdh, Pt.Xdh, Pt.Ydh, Pt.Zdh]
+  · intro h1 h2 h3
+    have := congrArg LinOut.rhs (gen_xyz_eq P o tol)
+    rw [show (evalLin P (@xyz ℝ realTrig P o tol)).rhs = (@xyz ℝ realTrig P o tol).rhs from rfl] at this
+    rw [this, h1, h2, h3]
+    simp [linXYZ, toPt]
+  · intro h1
+    have := congrArg LinOut.rhs (gen_distance_eq P o tol)
+    rw [show (evalLin P (@distance ℝ realTrig P o tol)).rhs = (@distance ℝ realTrig P o tol).rhs from rfl] at this
+    rw [this, linDistance_rhs, h1, distanceFn]
+    simp
+  · intro h1
+    have := congrArg LinOut.rhs (gen_height_eq P o tol)
+    rw [show (evalLin P (@height ℝ realTrig P o tol)).rhs = (@height ℝ realTrig P o tol).rhs from rfl] at this
+    rw [this, h1]
+    simp [linHeight, toPt, GPt.modelHeight, Pt.modelHeight]
+  · intro h1
+    have := congrArg LinOut.rhs (gen_hdiff_eq P o tol)
+    rw [show (evalLin P (@hdiff ℝ realTrig P o tol)).rhs = (@hdiff ℝ realTrig P o tol).rhs from rfl] at this
+    rw [this, h1]
+    simp [linHeightDiff, toPt, GPt.modelHeight, Pt.modelHeight]
+  · intro h1; rw [zenith_rhs, h1]; simp
+  · intro h1
+    rw [azimuth_rhs, h1]
+    have : Real.pi ≠ 0 := Real.pi_ne_zero
+    field_simp
+    simp
+  · intro h1; rw [angle_rhs, h1]; simp
+
+/-- non-vacuity: a vector observed between two points of the frame at (0, 0) -/
+example :
+    let fr : GPt ℝ := ⟨0, 0, 0, 0, 0, 0, 0, 0, 0, 0, 0, 0, frame 0 0, .free, .free, .free, 1, 2, 3⟩
+    let tg : GPt ℝ := ⟨10, 0, 0, 10, 0, 0, 0, 0, 0, 0, 0, 0, frame 0 0, .free, .free, .free, 4, 5, 6⟩
+    (@vector ℝ realTrig (fun r => if r = .to then tg else fr) ⟨10, 0, 0, 0, 0, 0, 0⟩ 1000).rhs = [0, 0, 0] := by
+  simp [vector, GPt.Xdh, GPt.Ydh, GPt.Zdh, frame_eq]
 
 /-- Permuting the input records (`obs₁ ~ obs₂`) leaves `dm_rows`, `dm_floats`, `dm_cols` and the
     set of active observations unchanged and renumbers the unknowns by an injective self-map `σ`
@@ -177,6 +305,63 @@ theorem C19_dump_roundtrip {K S : Type} (c : Codec K S) (hc : c.Lawful) (d : Adj
 /-- non-vacuity: a 3×4 matrix with an empty row, a banded and a 1×1 block, `minx = [2, 4]` -/
 example : WF exampleData ∧ exampleCodec.Lawful ∧ (writeAdj exampleCodec exampleData).length = 107 := by
   refine ⟨⟨rfl, ⟨_, rfl, ?_⟩, by decide⟩, ⟨fun _ => rfl, fun _ => rfl⟩, by decide⟩
+  decide
+
+/-- the pending-attribute discipline read from `dataparser_g3.cpp` (generated `sites`): every pending
+    field a handler reads is cleared by `init_g3`, and every record kind that can set such a field reads it
+    through `optional(…)`.  An assignment `obs->to_dh = g3->to_dh;` without `optional(` makes this false. -/
+theorem C19_parser_sites_ok : Gama.Gen.G3ParserSites.sites.ok = true := by decide
+
+/-- **record locality of the g3 parser**: whatever the uninitialised members of `DataParser_g3` hold
+    (`junk`), a document whose records only use the optional children their kind allows parses to
+    exactly `build sites r` for every record `r` — the observation depends on the record's own child
+    elements only; no value set inside one record survives into a later one — and any other document
+    is refused. -/
+theorem C19_parser_record_local {K α : Type} [Zero K] (junk : Pending K) (rs : List (Rec α K)) :
+    parse Gama.Gen.G3ParserSites.sites junk rs =
+      if rs.all (wellFormed Gama.Gen.G3ParserSites.sites) then .ok (rs.map (build Gama.Gen.G3ParserSites.sites))
+      else .error .unknownTag :=
+  parse_record_local C19_parser_sites_ok junk rs
+
+/-- hence parsing is independent of the order of the records: a permuted document gives the permuted
+    observations (and is refused iff the original is) -/
+theorem C19_parser_order_independent {K α : Type} [Zero K] (junk junk' : Pending K) {rs rs' : List (Rec α K)}
+    (hp : rs.Perm rs') :
+    (∀ bs, parse Gama.Gen.G3ParserSites.sites junk rs = .ok bs →
+        ∃ bs', parse Gama.Gen.G3ParserSites.sites junk' rs' = .ok bs' ∧ bs.Perm bs') ∧
+    (∀ e, parse Gama.Gen.G3ParserSites.sites junk rs = .error e →
+        parse Gama.Gen.G3ParserSites.sites junk' rs' = .error e) :=
+  parse_perm C19_parser_sites_ok junk junk' hp
+
+/-- non-vacuity: a distance with `<to-dh>` followed by a vector without: the vector's `to_dh` is 0
+    (junk 7 in the uninitialised members does not show) -/
+example :
+    parse (K := Int) (α := Unit) Gama.Gen.G3ParserSites.sites (fun _ => 7)
+      [⟨.dist, (), [(.toDh, 5)]⟩, ⟨.vector, (), []⟩] =
+    .ok [⟨.dist, (), [(.fromDh, 0), (.toDh, 5)]⟩, ⟨.vector, (), [(.fromDh, 0), (.toDh, 0)]⟩] := by
+  rfl
+
+/-- a consequence of the handler as coded (`angle->left_dh = optional(g3->to_dh); angle->right_dh =
+    optional(g3->to_dh);`, while `<left-dh>`, `<right-dh>` store into `g3->left_dh`, `g3->right_dh`, which
+    nobody reads): the target heights given in an `<angle>` record are ignored — both are always 0.
+    Record-local, but not what the input says (finding G4 of the report). -/
+theorem C19_parser_angle_target_heights_ignored {K α : Type} [Zero K] (a : α) (opts : List (Field × K))
+    (h : wellFormed Gama.Gen.G3ParserSites.sites (⟨.angle, a, opts⟩ : Rec α K) = true) :
+    ∃ v, (build Gama.Gen.G3ParserSites.sites (⟨.angle, a, opts⟩ : Rec α K)).dh =
+      [(.fromDh, v), (.leftDh, 0), (.rightDh, 0)] := by
+  have h0 : setOpts (fun _ => (0 : K)) opts .toDh = 0 := by
+    rw [setOpts_untouched]
+    intro o ho e
+    simp only [wellFormed, List.all_eq_true] at h
+    have := h o ho
+    rw [e] at this
+    revert this
+    decide
+  refine ⟨setOpts (fun _ => (0 : K)) opts .fromDh, ?_⟩
+  simp only [build, Gama.Gen.G3ParserSites.sites, Gama.Gen.G3ParserSites.consumes, consume]
+  simp [upd, h0]
+
+example : wellFormed Gama.Gen.G3ParserSites.sites (⟨.angle, (), [(.leftDh, (3 : Int))]⟩ : Rec Unit Int) = true := by
   decide
 
 end Gama.Props.C19
